@@ -144,6 +144,11 @@ func ctPushRequestCopyMerge(pr, other *PushRequest) {
 	verif.Ensures("reason-counts-add", !both || verif.Forall(func(k TriggerReason) bool {
 		return m.Reason[k] == verif.Old(func() int { return pr.Reason[k] })+verif.Old(func() int { return other.Reason[k] })
 	}))
+	// the result shares no set with its inputs (so that nobody who later merges into it can alter them)
+	verif.Ensures("result-shares-no-set", !both || ((m.ConfigsUpdated == nil || verif.Fresh(m.ConfigsUpdated)) &&
+		(m.AddressesUpdated == nil || verif.Fresh(m.AddressesUpdated)) &&
+		(m.WaypointsUpdated == nil || verif.Fresh(m.WaypointsUpdated)) &&
+		(m.Reason == nil || verif.Fresh(m.Reason))))
 	// "merging for one proxy never alters what another proxy is told": nothing that existed is written
 	verif.Ensures("no-existing-request-written", verif.Forall(func(r *PushRequest) bool { return verif.Fresh(r) || r == nil || requestUntouched(r) }))
 }
